@@ -19,16 +19,21 @@ let kind_of_char = function
   | 'U' -> KPush | 'G' -> KPing | 'A' -> KGoAway | 'W' -> KWinUpd | 'C' -> KCont
   | _ -> failwith "kind"
 
+let rt_of_head (s : string) : int =
+  List.fold_left (fun acc kv -> match String.split_on_char '=' kv with ["rt"; v] -> int_of_string v | _ -> acc) 0
+    (String.split_on_char ',' s)
+
 let parse_cfg (s : string) : config =
-  let ms = ref 0 and hl = ref 0 and mb = ref 0 in
+  let ms = ref 0 and hl = ref 0 and mb = ref 0 and rt = ref 0 in
   List.iter (fun kv ->
       match String.split_on_char '=' kv with
       | ["ms"; v] -> ms := int_of_string v
       | ["hl"; v] -> hl := int_of_string v
       | ["mb"; v] -> mb := int_of_string v
+      | ["rt"; v] -> rt := int_of_string v
       | _ -> ()) (String.split_on_char ',' s);
   { cf_maxStreams = z_of_int !ms; cf_maxHeaderList = z_of_int !hl; cf_maxBody = z_of_int !mb;
-    cf_maxRequestTime = z_of_int 0; cf_maxWindow = z_of_int (1 lsl 22) }
+    cf_maxRequestTime = z_of_int !rt; cf_maxWindow = z_of_int (1 lsl 22) }
 
 (* Settings.Reset + Read as far as the server looks at it: table size, hasWindowSize, windowSize *)
 let settings_view (s : string) : bool * n * bool * n =
@@ -142,6 +147,7 @@ let run_srv (line_parts : string list) : string =
   | [] -> "?"
   | head :: evs ->
     let cfg = parse_cfg head in
+    let now = ref 0 in
     let st = ref (init_conn cfg srv_init_hpack) in
     let seen = ref 0 in
     let groups = ref [] in
@@ -219,6 +225,15 @@ let run_srv (line_parts : string list) : string =
              if not !gated then step EvSL
            | "D" ->
              step (EvDone (n_of_int (int_of_string t.(1)), parse_resp t))
+           | "T" ->
+             (* the harness waited the request timeout out: every stream open now is due *)
+             now := !now + rt_of_head head + 1;
+             step (EvClock (z_of_int !now));
+             step EvTimer
+           | "I" ->
+             (* the idle timer fires: GOAWAY(NO_ERROR), closer closed; the stream loop sees it *)
+             step EvIdle;
+             step EvCloser
            | "E" ->
              step (EvRL RLEof);
              step EvSL
